@@ -18,7 +18,9 @@ Verdict(r) ==
       f == r.obs.follow  p == r.obs.plain
       fids == [i \in 1 .. Len(f.rows) |-> IdOf(f.rows[i][1])]
       pids == { IdOf(p.rows[i][1]) : i \in 1 .. Len(p.rows) }
-      want == Behind(w, r.root)
+      roots == { r.roots[i] : i \in 1 .. Len(r.roots) }
+      want == UNION { Behind(w, rt) : rt \in roots }
+      plain == UNION { Listed(w, rt, 0, 0) : rt \in roots }
       got == { fids[i] : i \in 1 .. Len(fids) }
       y == IF f.timed_out THEN "hang"
            ELSE IF f.panic THEN "crash"
@@ -26,10 +28,10 @@ Verdict(r) ==
            ELSE IF got \ want # {} THEN (IF 0 \in got THEN "row-from-outside-the-world" ELSE "extra-row")
            ELSE IF Cardinality(got) # Len(fids) THEN "entry-listed-twice"
            ELSE IF f.status # 0 THEN "status-" \o ToString(f.status)
-           ELSE IF pids # Listed(w, r.root, 0, 0) \/ Len(p.rows) # Cardinality(pids) THEN "without-option-wrong-rows"
+           ELSE IF pids # plain \/ Len(p.rows) # Cardinality(pids) THEN "without-option-wrong-rows"
            ELSE "ok"
   IN [id |-> r.id, ok |-> (y = "ok"), class |-> r.class, why |-> y, key |-> "C18/" \o r.class \o "/" \o y,
-      nontrivial |-> (want # Listed(w, r.root, 0, 0))]
+      nontrivial |-> (want # plain)]
 
 Init == l = 1
 Next == /\ l <= Len(Rec)
